@@ -448,6 +448,7 @@ def _import_module(k):
         with open(p, "w") as f:      # d<k> writes through the context, e<k> ignores it and returns the text
             f.write("def d%d(context):\n    context.write('{P%d|d%d}')\n    return ''\n\n" % (k, k, k))
             f.write("def e%d(context):\n    return '{P%d|e%d}'\n" % (k, k, k))
+            f.write("m = 1\n_inner = 2\n")      # a module has non-callable and private members too
         import importlib
         importlib.invalidate_caches()
     return name
@@ -464,7 +465,10 @@ def run_imports(c, backed):
         attrs = ("" if tag["anon"] else 'name="n%d" ' % k) + ('import="%s"' % cn(c, "d%d" % k, kd) if tag["imp"] == "one" else 'import="*"')
         defs = "".join('<%%def name="%s()">{P%d|%s%d}</%%def>' % (cn(c, "%s%d" % (z, k), kd), k, z, k) for z in "de")
         if tag["kind"] == "file":
-            t["/o%d.html" % k] = defs + "\n"
+            # the target also HAS, without exporting them: body(), a def nested in d<k>, a <%! %> function render_helper,
+            # a module attribute m
+            nested = defs.replace("</%def>", '<%def name="inner()">nested</%def></%def>', 1)
+            t["/o%d.html" % k] = "<%!\ndef render_helper(context):\n    return 'helper'\nm = 1\n%>\n" + nested + "\nbody-of-o%d\n" % k
             tags.append('<%%namespace %s file="/o%d.html"/>' % (attrs, k))
         elif tag["kind"] == "module":
             tags.append('<%%namespace %s module="%s"/>' % (attrs, _import_module(k)))
@@ -476,8 +480,14 @@ def run_imports(c, backed):
             m += "${g(context, 'call|%s%d', 'ERR|%s%d', lambda: %s())}\n" % (z, k, z, k, cn(c, "%s%d" % (z, k), tag["kind"]))
         if not tag["anon"]:
             m += "${g(context, 'call|n%d.e%d', 'ERR|e%d', lambda: n%d.%s())}\n" % (k, k, k, k, cn(c, "e%d" % k, tag["kind"]))
+    others = ["body", "helper", "inner", "m"]
+    if c["ctx"]:
+        for x in others:
+            m += "{read|%s}${%s}\n" % (x, x)
     t["/m.html"] = m
     kw = {cname: (lambda x=x: "{C|%s}" % x) for cname, x in names} if c["ctx"] else {}
+    if c["ctx"]:
+        kw.update({x: "{C|%s}" % x for x in others})
     lk = _lookup_with(t, backed, "imports")
     return _observe(lambda: lk.get_template("/m.html").render(**kw))
 
@@ -634,7 +644,7 @@ def check(run):
     if res.violated:
         run.spec_violation(res)
         return {"rule": "TLC found the design model violating %s" % res.violated, "exhaustive": True}
-    for a in ("Resolve", "PopulateImports", "Calls", "GenNamespaces", "Bodies", "Include", "IncludeAt", "PopulateTag", "TagCalls", "MakeNamespace", "Probe", "Finish"):
+    for a in ("Resolve", "PopulateImports", "Calls", "GenNamespaces", "Bodies", "Include", "IncludeAt", "PopulateTag", "TagCalls", "ReadOthers", "MakeNamespace", "Probe", "Finish"):
         if not res.coverage.get(a, [0, 0])[1]:
             raise MachineryError("vacuous model checking: action %s never taken (%s)" % (a, res.coverage))
     run.extra["action_coverage"] = {a: v[1] for a, v in res.coverage.items() if a[0].isupper()}
